@@ -5,6 +5,10 @@
 // usage: llvm2facts <in.bc> <out.json> [--inline=leaves|all|none]
 //
 // Nothing is executed; this is a pure IR-to-facts translation.
+#include <fstream>
+#include <functional>
+#include <map>
+#include <set>
 #include "llvm/ADT/DenseMap.h"
 #include "llvm/ADT/SmallPtrSet.h"
 #include "llvm/ADT/StringExtras.h"
@@ -508,10 +512,49 @@ struct Dumper {
   }
 };
 
+
+// ---------------------------------------------------------------- call signatures ---
+// direct callees / referenced functions of F (by name, intrinsics excluded)
+static void directRefs(const Function &F, std::set<const Function *> &out) {
+  for (const BasicBlock &bb : F)
+    for (const Instruction &i : bb) {
+      if (auto *cb = dyn_cast<CallBase>(&i))
+        if (const Function *cf = cb->getCalledFunction())
+          if (!cf->isIntrinsic()) out.insert(cf);
+      for (const Use &u : i.operands()) {
+        const Value *v = u.get()->stripPointerCasts();
+        if (auto *rf = dyn_cast<Function>(v))
+          if (!rf->isIntrinsic()) out.insert(rf);
+      }
+    }
+}
+
+static std::string joinNames(const std::set<std::string> &s) {
+  std::string r;
+  for (auto &n : s) { if (!r.empty()) r += ","; r += n; }
+  return r;
+}
+
 int main(int argc, char **argv) {
   if (argc < 3) { errs() << "usage: llvm2facts in.bc out.json [--inline=leaves|all|none]\n"; return 2; }
   std::string mode = "leaves";
-  for (int i = 3; i < argc; ++i) { StringRef a(argv[i]); if (a.startswith("--inline=")) mode = a.substr(9).str(); }
+  std::string knownPath, sigsPath, unitName, dumpSigsPath;
+  for (int i = 3; i < argc; ++i) {
+    StringRef a(argv[i]);
+    if (a.startswith("--inline=")) mode = a.substr(9).str();
+    if (a.startswith("--known=")) knownPath = a.substr(8).str();
+    if (a.startswith("--sigs=")) sigsPath = a.substr(7).str();
+    if (a.startswith("--unit=")) unitName = a.substr(7).str();
+    if (a.startswith("--dump-sigs=")) dumpSigsPath = a.substr(12).str();
+  }
+  // vocabulary of function names the rules were written against: a static function that is NOT in it (a freshly extracted helper, a renamed
+  // helper) is folded into its callers, as the optimising build does, so that the rules see the same code whether or not it was factored out
+  std::set<std::string> known;
+  if (!knownPath.empty()) {
+    std::ifstream kf(knownPath);
+    std::string ln;
+    while (std::getline(kf, ln)) if (!ln.empty()) known.insert(ln);
+  }
   LLVMContext ctx; SMDiagnostic err;
   std::unique_ptr<Module> M = parseIRFile(argv[1], err, ctx);
   if (!M) { err.print(argv[0], errs()); return 2; }
@@ -526,8 +569,63 @@ int main(int argc, char **argv) {
     if (auto e = PB.parsePassPipeline(MPM, fpipe)) { errs() << toString(std::move(e)) << "\n"; return 2; }
     MPM.run(*M, MAM);
   }
+  std::vector<std::pair<std::string, std::string>> aliased;
+  {
+    // call graph by name
+    std::map<const Function *, std::set<const Function *>> refs, users;
+    for (Function &F : *M) if (!F.isDeclaration()) {
+      directRefs(F, refs[&F]);
+      for (const Function *c : refs[&F]) users[c].insert(&F);
+    }
+    if (!dumpSigsPath.empty()) {
+      std::ofstream sf(dumpSigsPath);
+      for (Function &F : *M) if (!F.isDeclaration()) {
+        std::set<std::string> ce, cr;
+        for (const Function *c : refs[&F]) ce.insert(c->getName().str());
+        for (const Function *c : users[&F]) cr.insert(c->getName().str());
+        sf << unitName << "\t" << F.getName().str() << "\t" << joinNames(ce) << "\t" << joinNames(cr) << "\n";
+      }
+    }
+    if (!sigsPath.empty() && !known.empty()) {
+      // a known function that vanished from this unit while an unknown function with exactly the same callees and callers appeared is a RENAME:
+      // give the function its old name back, so that rules anchored on it still find it (callees / callers are taken through other unknown helpers)
+      std::map<std::string, std::pair<std::string, std::string>> want;   // missing known name -> (callees, callers)
+      std::ifstream sf(sigsPath);
+      std::string ln;
+      while (std::getline(sf, ln)) {
+        std::vector<std::string> col; size_t p0 = 0;
+        for (int k = 0; k < 3; ++k) { size_t t = ln.find('\t', p0); if (t == std::string::npos) break; col.push_back(ln.substr(p0, t - p0)); p0 = t + 1; }
+        col.push_back(ln.substr(p0));
+        if (col.size() != 4 || col[0] != unitName) continue;
+        Function *g = M->getFunction(col[1]);
+        if (!g || g->isDeclaration()) want[col[1]] = {col[2], col[3]};
+      }
+      auto isUnknown = [&](const Function *f) { return !f->isDeclaration() && f->hasLocalLinkage() && !known.count(f->getName().str()); };
+      std::function<void(const Function *, bool, std::set<std::string> &, std::set<const Function *> &)> expand =
+          [&](const Function *f, bool down, std::set<std::string> &out, std::set<const Function *> &seen) {
+            for (const Function *c : (down ? refs[f] : users[f])) {
+              if (isUnknown(c)) { if (seen.insert(c).second) expand(c, down, out, seen); }
+              else out.insert(c->getName().str());
+            }
+          };
+      std::map<std::string, std::vector<Function *>> cand;
+      for (Function &F : *M) if (isUnknown(&F)) {
+        std::set<std::string> ce, cr; std::set<const Function *> s1{&F}, s2{&F};
+        expand(&F, true, ce, s1); expand(&F, false, cr, s2);
+        std::string a = joinNames(ce), b = joinNames(cr);
+        for (auto &w : want) if (w.second.first == a && w.second.second == b) cand[w.first].push_back(&F);
+      }
+      std::map<Function *, int> uses;
+      for (auto &c : cand) for (Function *f : c.second) uses[f]++;
+      for (auto &c : cand)
+        if (c.second.size() == 1 && uses[c.second[0]] == 1) {
+          aliased.push_back({c.second[0]->getName().str(), c.first});
+          c.second[0]->setName(c.first);
+        }
+    }
+  }
   unsigned nleaves = 0;
-  std::vector<std::string> leafnames;
+  std::vector<std::string> leafnames, foldednames;
   if (mode != "none") {
     if (mode == "leaves") {
       for (Function &F : *M) if (F.hasFnAttribute(Attribute::AlwaysInline)) F.removeFnAttr(Attribute::AlwaysInline);
@@ -542,6 +640,12 @@ int main(int argc, char **argv) {
         F.removeFnAttr(Attribute::NoInline); F.removeFnAttr(Attribute::OptimizeNone);
         F.addFnAttr(Attribute::AlwaysInline); ++nleaves; leafnames.push_back(F.getName().str());
       }
+      if (!known.empty())
+        for (Function &F : *M)
+          if (!F.isDeclaration() && F.hasLocalLinkage() && !pure.count(&F) && !known.count(F.getName().str())) {
+            F.removeFnAttr(Attribute::NoInline); F.removeFnAttr(Attribute::OptimizeNone);
+            F.addFnAttr(Attribute::AlwaysInline); foldednames.push_back(F.getName().str());
+          }
     }
     ModulePassManager MPM;
     std::string pipe = std::string("always-inline,") + fpipe;
@@ -556,6 +660,10 @@ int main(int argc, char **argv) {
   Dumper D(*M, out);
   out << "{\"module\":" << jstr(M->getSourceFileName()) << ",\"inline_mode\":" << jstr(mode) << ",\"leaves\":[";
   for (size_t i = 0; i < leafnames.size(); ++i) { if (i) out << ","; out << jstr(leafnames[i]); }
+  out << "],\"folded_unknown\":[";
+  for (size_t i = 0; i < foldednames.size(); ++i) { if (i) out << ","; out << jstr(foldednames[i]); }
+  out << "],\"renamed_back\":[";
+  for (size_t i = 0; i < aliased.size(); ++i) { if (i) out << ","; out << "[" << jstr(aliased[i].first) << "," << jstr(aliased[i].second) << "]"; }
   out << "],\n\"functions\":[";
   bool first = true;
   for (const Function &F : *M) {
